@@ -140,12 +140,33 @@ def observe(cfg, xs):
     return obs
 
 
+def long_paths(cfg):
+    """the 'long thin' family: every prefix of length <= P over the grid followed by a constant run of one grid value"""
+    k1 = len(grid(cfg))
+    P, L = cfg["paths"]
+    for n in range(0, P + 1):
+        for pre in itertools.product(range(k1), repeat=n):
+            for tail in range(k1):
+                yield pre + (tail,) * (L - n)
+
+
 def build_trie(cfg, rec=None):
     """dict: tuple of grid indices -> observation, for every prefix of length 1..depth"""
     g = grid(cfg)
     D = depth(cfg)
     k1 = len(g)
     trie = {}
+    if cfg.get("paths"):
+        for path in long_paths(cfg):
+            for n in range(1, len(path) + 1):
+                if path[:n] not in trie:
+                    trie[path[:n]] = observe(cfg, [g[i] for i in path[:n]])
+        if rec is not None:
+            rec.state(len(trie))
+            rec.trans(len(trie))
+            rec.evals(len(trie) * 4)
+            rec.trace(sum(1 for _ in long_paths(cfg)))
+        return trie
     for n in range(1, D + 1):
         for idx in itertools.product(range(k1), repeat=n):
             trie[idx] = observe(cfg, [g[i] for i in idx])
@@ -250,10 +271,24 @@ def configs(tier, ro_values=(True,)):
     return out
 
 
+def long_configs(tier):
+    """long samples (to length 24 / 40): short arbitrary prefix, then a constant run; populations of 40 / 64 or IID"""
+    P, L, N = (2, 24, 40) if tier == "quick" else (3, 40, 64)
+    out = []
+    for u, t in (("1", "1/2"), ("5/4", "1/2")):
+        for finite in (True, False):
+            for test, estim, bet, kw in _methods(u, t, finite, "quick"):
+                if test == "alpha_mart" and estim is None and kw:
+                    continue  # one default-route fixed alternative is enough here
+                out.append({"test": test, "estim": estim, "bet": bet, "kw": kw, "u": u, "t": t, "N": N if finite else None,
+                            "H": None if finite else L, "k": 2, "D": L, "paths": [P, L], "ro": True})
+    return out
+
+
 def label(cfg):
     return (
         f"{cfg['test']}/{cfg.get('estim')}/{cfg.get('bet')} u={cfg['u']} t={cfg['t']} N={cfg['N']} "
-        f"H={cfg['H']} k={cfg['k']} ro={cfg.get('ro', True)} kw={cfg['kw']}" + (f" vals={cfg['vals']}" if cfg.get("vals") else "")
+        f"H={cfg['H']} k={cfg['k']} ro={cfg.get('ro', True)} kw={cfg['kw']}" + (f" vals={cfg['vals']}" if cfg.get("vals") else "") + (f" long-paths={cfg['paths']}" if cfg.get("paths") else "")
     )
 
 
